@@ -314,17 +314,27 @@ pub fn statics(bin: &str, input: &str, output: &str, dir: &str) -> Value {
 	std::fs::write(base.join("canary2.txt"), "OUT:canary2").unwrap();
 	std::fs::write(base.join("parent").join("canary.txt"), "OUT:canary").unwrap();
 	std::fs::write(base.join("parent").join("index.html"), "OUT:other").unwrap();
+	// precompressed siblings outside the root: the name itself does not exist, only name.br / name.gz
+	std::fs::write(base.join("parent").join("secret.txt.br"), indep::encode("brotli", b"OUT:secret")).unwrap();
+	std::fs::write(base.join("secret.txt.gz"), indep::encode("gzip", b"OUT:secret2")).unwrap();
+	std::fs::write(base.join("index.html.gz"), indep::encode("gzip", b"OUT:other2")).unwrap();
 	let inside = [("index.html", "IN:index.html"), ("a.txt", "IN:a.txt"), ("sub/index.html", "IN:sub/index.html"), ("sub/b.txt", "IN:sub/b.txt")];
 	for (f, c) in inside {
 		std::fs::write(root.join(f), c).unwrap();
 	}
+	// ... and inside it (the legitimate use of the fallback)
+	std::fs::write(root.join("c.txt.br"), indep::encode("brotli", b"IN:c.txt")).unwrap();
+	std::fs::write(root.join("sub").join("d.txt.gz"), indep::encode("gzip", b"IN:sub/d.txt")).unwrap();
 	// tar with the same tree (members with ./ prefix), next to the root
 	let tiles: Vec<indep::Tile> = vec![];
 	let _ = tiles;
 	let tar_path = base.join("parent").join("site.tar");
 	{
 		let mut b = vec![];
-		for (f, c) in inside {
+		let mut members: Vec<(String, Vec<u8>)> = inside.iter().map(|(f, c)| (f.to_string(), c.as_bytes().to_vec())).collect();
+		members.push(("c.txt.br".into(), indep::encode("brotli", b"IN:c.txt")));
+		members.push(("sub/d.txt.gz".into(), indep::encode("gzip", b"IN:sub/d.txt")));
+		for (f, c) in members {
 			let name = format!("./{f}");
 			let mut h = vec![0u8; 512];
 			h[..name.len()].copy_from_slice(name.as_bytes());
@@ -341,7 +351,7 @@ pub fn statics(bin: &str, input: &str, output: &str, dir: &str) -> Value {
 			let sum: u32 = h.iter().map(|x| *x as u32).sum();
 			h[148..155].copy_from_slice(format!("{:06o}\0", sum).as_bytes());
 			b.extend_from_slice(&h);
-			b.extend_from_slice(c.as_bytes());
+			b.extend_from_slice(&c);
 			b.extend(std::iter::repeat(0).take((512 - c.len() % 512) % 512));
 		}
 		b.extend(std::iter::repeat(0).take(1024));
@@ -366,7 +376,7 @@ pub fn statics(bin: &str, input: &str, output: &str, dir: &str) -> Value {
 		let resp = match client.as_mut().and_then(|cl| cl.get(&target, &[("Accept-Encoding", "gzip, br")])) {
 			None => {
 				dropped += 1;
-				json!({"status":-1,"file":""})
+				json!({"status":-1,"file":"","outside":0})
 			}
 			Some(r) => {
 				let file = if r.status == 200 {
@@ -382,7 +392,8 @@ pub fn statics(bin: &str, input: &str, output: &str, dir: &str) -> Value {
 				} else {
 					String::new()
 				};
-				json!({"status":r.status,"file":file})
+				let outside = file.starts_with("out:") as u8;
+				json!({"status":r.status,"file":file,"outside":outside})
 			}
 		};
 		out.emit(&json!({"ev":"static","id":i,"q":c,"resp":resp,"target":target}));
